@@ -119,6 +119,12 @@ func (a *PeerActor) Stop() {
 	}
 }
 
+// SetListener installs an already opened listener (listen mode).
+func (a *PeerActor) SetListener(ln *simnet.TCPListener) {
+	a.ln = ln
+	a.Addr = ln.Addr().String()
+}
+
 // Listen opens the listener synchronously (so its address is known) — call before Start.
 func (a *PeerActor) Listen() {
 	prev := simrt.Cur()
